@@ -31,13 +31,14 @@ type FuncObs struct {
 
 // PostObs is what go/types says about a package after a goderive run.
 type PostObs struct {
-	Present    bool      `json:"present"`
-	Typechecks bool      `json:"typechecks"`
-	Errors     []string  `json:"errors"`
-	Sites      []SiteObs `json:"sites"`
-	Funcs      []FuncObs `json:"funcs"`
-	Reserved   []string  `json:"reserved"`
-	Unresolved []string  `json:"unresolved"` // derive-prefixed calls that resolve to nothing
+	Present       bool      `json:"present"`
+	Typechecks    bool      `json:"typechecks"`
+	Errors        []string  `json:"errors"`
+	Sites         []SiteObs `json:"sites"`
+	Funcs         []FuncObs `json:"funcs"`
+	Reserved      []string  `json:"reserved"`
+	Unresolved    []string  `json:"unresolved"`    // derive-prefixed calls that resolve to nothing
+	DerivedParses bool      `json:"derivedParses"` // derived.gen.go is absent or a syntactically valid Go file
 }
 
 // Checker type-checks package directories with a source importer (stdlib and
@@ -132,7 +133,7 @@ func typeKey(t types.Type) string {
 // package name, including in-package _test files) and reports observations.
 // prefixes: plugin name -> prefix (to attribute generated functions).
 func (c *Checker) Check(dir string, prefixes map[string]string) PostObs {
-	obs := PostObs{Present: true, Errors: []string{}, Sites: []SiteObs{}, Funcs: []FuncObs{}, Reserved: []string{}, Unresolved: []string{}}
+	obs := PostObs{Present: true, DerivedParses: true, Errors: []string{}, Sites: []SiteObs{}, Funcs: []FuncObs{}, Reserved: []string{}, Unresolved: []string{}}
 	ents, err := os.ReadDir(dir)
 	if err != nil {
 		obs.Errors = append(obs.Errors, err.Error())
@@ -149,6 +150,9 @@ func (c *Checker) Check(dir string, prefixes map[string]string) PostObs {
 		}
 		f, err := parser.ParseFile(c.fset, filepath.Join(dir, n), nil, parser.ParseComments)
 		if err != nil {
+			if n == "derived.gen.go" {
+				obs.DerivedParses = false
+			}
 			obs.Errors = append(obs.Errors, err.Error())
 			if f == nil {
 				continue
